@@ -864,6 +864,33 @@ pub fn adjacent_range_family(pool: &Pool) -> Vec<T> {
     v
 }
 
+/// Terms with many derivative classes (sizes around 8/16/32: searches over the class list change strategy there).
+pub fn many_classes_family() -> Vec<T> {
+    let mut v = vec![];
+    for &n in &[9u32, 16, 17, 18, 20, 33, 40] {
+        let sep: Vec<T> = (0..n).map(|i| T::Chr(100 + 3 * i)).collect();
+        let adj: Vec<T> = (0..n).map(|i| T::Chr(100 + i)).collect();
+        let pairs: Vec<T> = (0..n).map(|i| T::Rng(100 + 4 * i, 101 + 4 * i)).collect();
+        let digit = T::Rng(48, 57);
+        v.push(T::Cat2(Box::new(T::AltL(sep.clone())), b(&digit)));
+        v.push(T::Cat2(b(&digit), Box::new(T::AltL(sep.clone()))));
+        v.push(T::Not(Box::new(T::AltL(pairs.clone()))));
+        if n <= 20 {
+            v.push(T::Star(Box::new(T::AltL(pairs.clone()))));
+            // adjacent singletons stay separate classes: each is followed by a different letter of a small set
+            let arms: Vec<T> = adj.iter().enumerate().map(|(i, c)| if i % 2 == 0 { c.clone() } else { T::Cat2(b(c), b(&digit)) }).take(14).collect();
+            v.push(T::AltL(arms));
+        }
+        // every second class goes one way, the others another way: the classes cannot be merged
+        let even: Vec<T> = sep.iter().step_by(2).cloned().collect();
+        let odd: Vec<T> = sep.iter().skip(1).step_by(2).cloned().collect();
+        if n <= 33 {
+            v.push(T::Alt2(Box::new(T::Cat2(Box::new(T::AltL(even)), b(&digit))), Box::new(T::AltL(odd))));
+        }
+    }
+    v
+}
+
 /// Complements (and other terms with a non-trivial complementary class) in NON-head positions: after a
 /// prefix, under a loop, inside one arm of a union - states reached later have defaults of their own.
 pub fn complement_inside_family(pool: &Pool) -> Vec<T> {
